@@ -9,6 +9,7 @@ import (
 	"math/rand"
 	"runtime"
 	"sort"
+	"strings"
 	"sync"
 	"time"
 
@@ -50,6 +51,8 @@ type stackCase struct {
 	Sign       bool       `json:"sign"`      // exercise every subset of size >= t afterwards
 	Cancel     int        `json:"cancel_ms"` // cancel (not expire) every context after that many ms (0: never)
 	Cfg        int        `json:"cfg"`
+	SlowInit   int        `json:"slow_init"` // node whose back-end initialisation takes SlowMs (0: none)
+	SlowMs     int        `json:"slow_ms"`
 }
 
 type stackJob struct {
@@ -73,6 +76,8 @@ type stackRun struct {
 	sentBy  map[int]int
 	total   int
 	parties map[int]tss.MpcParty
+	inited  map[int]bool
+	early   int                      // protocol messages that arrived before the receiver had registered the session
 	direct  map[int]tss.KeyGenerator // mode "direct": the back ends wired without orchestrator, synchroniser and reliable broadcast
 }
 
@@ -108,6 +113,26 @@ func (r *stackRun) send(from int, msgType uint8, topic []byte, data []byte, to .
 	}
 }
 
+// a logger that counts the warnings by which the dispatcher reports traffic it had to drop because the session's handlers were
+// not (yet) registered: in a fault-free run the two synchronisation barriers must make that impossible
+// (only drops BEFORE the node's back end was initialised count: the reliable-broadcast instance is registered before Init, so later
+// drops can only be traffic that arrives after the session has finished, which is legitimate)
+type countingLogger struct {
+	scripted.Logger
+	r    *stackRun
+	node int
+}
+
+func (l countingLogger) Warnf(format string, a ...interface{}) {
+	if strings.Contains(format, "no RBC instance expects it") || strings.Contains(format, "no classifier for it") {
+		l.r.mu.Lock()
+		if !l.r.inited[l.node] {
+			l.r.early++
+		}
+		l.r.mu.Unlock()
+	}
+}
+
 // recording decorator around a real key generator
 type recGen struct {
 	inner tss.KeyGenerator
@@ -128,7 +153,14 @@ func (g *recGen) Init(parties []uint16, threshold int, sendMsg func(msg []byte, 
 	for i, p := range parties {
 		ps[i] = int(p)
 	}
+	if g.r.c.SlowInit == g.node && g.r.c.SlowMs > 0 {
+		// a back end whose initialisation is slow: the barrier of the orchestrator must still hold
+		time.Sleep(time.Duration(g.r.c.SlowMs) * time.Millisecond)
+	}
 	g.r.log(obj{"e": "init", "node": g.node, "parties": ps, "threshold": threshold})
+	g.r.mu.Lock()
+	g.r.inited[g.node] = true
+	g.r.mu.Unlock()
 	g.inner.Init(parties, threshold, func(msg []byte, isBroadcast bool, to uint16) {
 		g.r.log(obj{"e": "bsend", "node": g.node, "kind": kindOf(msg), "bc": isBroadcast, "to": int(to)})
 		sendMsg(msg, isBroadcast, to)
@@ -151,7 +183,7 @@ func (g *recGen) KeyGen(ctx context.Context) ([]byte, error) { return g.inner.Ke
 func stackExec(t int, c stackCase) []obj {
 	threshold.SyncInterval = 2 * time.Millisecond
 	rng := rand.New(rand.NewSource(c.Seed))
-	r := &stackRun{c: c, t: t, links: map[[2]int][]netMsg{}, sentBy: map[int]int{}, parties: map[int]tss.MpcParty{}}
+	r := &stackRun{c: c, t: t, links: map[[2]int][]netMsg{}, sentBy: map[int]int{}, parties: map[int]tss.MpcParty{}, inited: map[int]bool{}}
 	r.lines = append(r.lines, obj{"t": t, "e": "reset", "cfg": c.Cfg, "scheme": c.Scheme, "mode": c.Mode, "n": c.N, "th": c.T, "ids": c.IDs, "seed": c.Seed,
 		"policy": c.Policy, "fault": c.Fault, "byz": c.Byz != nil})
 	if c.Byz != nil {
@@ -216,10 +248,10 @@ func stackExec(t int, c stackCase) []obj {
 			sf = func(party uint16) tss.Signer { return eddsa.NewParty(party, scripted.Logger{}) }
 		}
 		if c.Mode == "silent" {
-			r.parties[id] = threshold.SilentScheme(uint16(id), scripted.Logger{}, kgf, sf, c.T, send, mf,
+			r.parties[id] = threshold.SilentScheme(uint16(id), countingLogger{r: r, node: id}, kgf, sf, c.T, send, mf,
 				func([]byte, int) []uint16 { return all16 })
 		} else {
-			r.parties[id] = threshold.LoudScheme(uint16(id), scripted.Logger{}, kgf, sf, c.T, send, mf)
+			r.parties[id] = threshold.LoudScheme(uint16(id), countingLogger{r: r, node: id}, kgf, sf, c.T, send, mf)
 		}
 	}
 	deadline := time.Duration(c.DeadlineMs) * time.Millisecond
@@ -451,7 +483,7 @@ func stackExec(t int, c stackCase) []obj {
 	}
 	r.mu.Lock()
 	defer r.mu.Unlock()
-	return append(r.lines, obj{"t": t, "e": "end", "elapsed_ms": int(elapsed / time.Millisecond), "messages": r.total})
+	return append(r.lines, obj{"t": t, "e": "end", "elapsed_ms": int(elapsed / time.Millisecond), "messages": r.total, "early": r.early})
 }
 
 // the public part of the stored data (threshold key and per-party keys), hex of a digest to keep lines short
